@@ -19,7 +19,7 @@ BUILD = os.path.join(os.path.dirname(COQ_DIR), "build")
 
 HEADER = """Require Import Boario.Base.QcLib Boario.Base.Vec Boario.Model.Econ Boario.Corr.Check.
 Require Import Boario.Model.Events Boario.Corr.CheckEv Boario.Model.Init Boario.Model.Tracker Boario.Model.Ingest Boario.Corr.CheckInit.
-Require Import Boario.Model.Create Boario.Corr.CheckCreate.
+Require Import Boario.Model.Create Boario.Corr.CheckCreate Boario.Model.Sim Boario.Corr.CheckStep.
 Open Scope Qc_scope.
 Definition q (m e : Z) : Qc := of_me m e.
 Arguments q (_ _)%Z.
